@@ -2,6 +2,7 @@ package interp
 
 import (
 	"go/constant"
+	"go/token"
 	"reflect"
 )
 
@@ -452,6 +453,33 @@ func vConstantValue(v reflect.Value) (c constant.Value) {
 		c = v.Interface().(constant.Value)
 	}
 	return
+}
+
+// constantOf returns the constant held by v, a constant.Value or a value of a basic type.
+// It returns nil if v holds something else.
+func constantOf(v reflect.Value) constant.Value {
+	if !v.IsValid() {
+		return nil
+	}
+	if c := vConstantValue(v); c != nil {
+		return c
+	}
+	switch v.Kind() {
+	case reflect.Bool:
+		return constant.MakeBool(v.Bool())
+	case reflect.String:
+		return constant.MakeString(v.String())
+	case reflect.Int, reflect.Int8, reflect.Int16, reflect.Int32, reflect.Int64:
+		return constant.MakeInt64(v.Int())
+	case reflect.Uint, reflect.Uint8, reflect.Uint16, reflect.Uint32, reflect.Uint64, reflect.Uintptr:
+		return constant.MakeUint64(v.Uint())
+	case reflect.Float32, reflect.Float64:
+		return constant.MakeFloat64(v.Float())
+	case reflect.Complex64, reflect.Complex128:
+		c := v.Complex()
+		return constant.BinaryOp(constant.MakeFloat64(real(c)), token.ADD, constant.MakeImag(constant.MakeFloat64(imag(c))))
+	}
+	return nil
 }
 
 func genValueInt(n *node) func(*frame) (reflect.Value, int64) {
